@@ -1,4 +1,644 @@
-(* C13 — proofs about Model/LoginInbound.v (under construction) *)
+(* C13 — proofs about Model/LoginInbound.v. *)
 From Coq Require Import List ZArith NArith Bool Arith Lia.
 From Verif Require Import Base.Conc Model.LoginInbound.
 Import ListNotations.
+
+(* ---------- lists ---------- *)
+
+Definition sumf {A} (w : A -> nat) (l : list A) : nat := fold_right (fun a n => w a + n) 0 l.
+
+Lemma sumf_app {A} (w : A -> nat) l1 l2 : sumf w (l1 ++ l2) = sumf w l1 + sumf w l2.
+Proof. induction l1; simpl; lia. Qed.
+
+Lemma sumf_filter {A} (p : A -> bool) l : sumf (fun a => if p a then 1 else 0) l = length (filter p l).
+Proof. induction l as [|a l IH]; simpl; auto. destruct (p a); simpl; lia. Qed.
+
+Lemma sumf_upd {A} (w : A -> nat) (l : list A) r x d :
+  w d = 0 ->
+  sumf w (upd l r x) + w (nth r l d) <= sumf w l + w x.
+Proof.
+  intros Hd. revert r. induction l as [|a l IH]; intros [|r]; simpl; try lia.
+  specialize (IH r). lia.
+Qed.
+
+Lemma in_upd {A} (l : list A) r x y : In y (upd l r x) -> y = x \/ In y l.
+Proof.
+  revert r. induction l as [|a l IH]; intros [|r]; simpl; auto.
+  - intros [<-|H]; auto.
+  - intros [<-|H]; auto. destruct (IH _ H); auto.
+Qed.
+
+(* ---------- the map ---------- *)
+
+Lemma mfind_mremove_same id m : mfind id (mremove id m) = None.
+Proof.
+  induction m as [|[i k] r IH]; simpl; auto.
+  destruct (Z.eqb id i) eqn:E; auto. simpl. now rewrite E.
+Qed.
+
+Lemma mfind_mremove_other id id' m : id <> id' -> mfind id' (mremove id m) = mfind id' m.
+Proof.
+  intros Hn. induction m as [|[i k] r IH]; simpl; auto.
+  destruct (Z.eqb_spec id i) as [->|Hi].
+  - rewrite IH. destruct (Z.eqb_spec id' i); congruence.
+  - simpl. now rewrite IH.
+Qed.
+
+Lemma mfind_mset_same id k m : mfind id (mset id k m) = Some k.
+Proof. unfold mset. simpl. now rewrite Z.eqb_refl. Qed.
+
+Lemma mfind_mset_other id id' k m : id <> id' -> mfind id' (mset id k m) = mfind id' m.
+Proof.
+  intros Hn. unfold mset. simpl. destruct (Z.eqb_spec id' id); [congruence|].
+  now apply mfind_mremove_other.
+Qed.
+
+(* ---------- accounting ---------- *)
+
+Definition w_tok (id : Z) (l : rlocal) : nat :=
+  match l_tok l with Some (i, _, _) => if Z.eqb id i then 1 else 0 | None => 0 end.
+Definition tokens (id : Z) (s : state) : nat := sumf (w_tok id) (locals s).
+Definition inmap (id : Z) (s : state) : nat :=
+  match mfind id (outstanding s) with Some _ => 1 | None => 0 end.
+Definition w_cb (l : rlocal) : nat := if l_cb l then 1 else 0.
+Definition cbtokens (s : state) : nat := sumf w_cb (locals s).
+Definition onall1 (s : state) : nat := if on_all s then 1 else 0.
+
+Definition w_cons (id : Z) (e : event) : nat :=
+  match e with ECons i _ _ => if Z.eqb id i then 1 else 0 | _ => 0 end.
+Definition w_reg (id : Z) (e : event) : nat :=
+  match e with EReg i _ => if Z.eqb id i then 1 else 0 | _ => 0 end.
+Definition w_compl (e : event) : nat := match e with ECompletion => 1 | _ => 0 end.
+Definition w_fire (e : event) : nat := match e with EFire => 1 | _ => 0 end.
+
+Lemma count_cons_sum id evs : count_cons id evs = sumf (w_cons id) evs.
+Proof.
+  unfold count_cons. rewrite <- sumf_filter. induction evs as [|e l IH]; simpl; auto.
+  rewrite IH. destruct e; simpl; auto.
+Qed.
+Lemma count_reg_sum id evs : count_reg id evs = sumf (w_reg id) evs.
+Proof.
+  unfold count_reg. rewrite <- sumf_filter. induction evs as [|e l IH]; simpl; auto.
+  rewrite IH. destruct e; simpl; auto.
+Qed.
+Lemma count_completion_sum evs : count_completion evs = sumf w_compl evs.
+Proof.
+  unfold count_completion. rewrite <- sumf_filter. induction evs as [|e l IH]; simpl; auto.
+  rewrite IH. destruct e; simpl; auto.
+Qed.
+Lemma count_fire_sum evs : count_fire evs = sumf w_fire evs.
+Proof.
+  unfold count_fire. rewrite <- sumf_filter. induction evs as [|e l IH]; simpl; auto.
+  rewrite IH. destruct e; simpl; auto.
+Qed.
+
+(* every invocation, every consumer taken out of the map and not yet invoked, and every map entry
+   for id is paid for by a registration under id *)
+Definition acc_cons (s : state) (evs : list event) : Prop :=
+  forall id, sumf (w_cons id) evs + tokens id s + inmap id s <= sumf (w_reg id) evs.
+
+(* Spec: every completion, every callback taken and not yet run, and the stored callback is paid
+   for by a fire *)
+Definition acc_compl (s : state) (evs : list event) : Prop :=
+  sumf w_compl evs + cbtokens s + onall1 s <= sumf w_fire evs.
+
+Inductive is_action (v : variant) : (state -> state * list event) -> Prop :=
+| IA_alloc r : is_action v (s_alloc r)
+| IA_register r k d : is_action v (s_register r k d)
+| IA_write r d : is_action v (s_write r d)
+| IA_lookup r id a : is_action v (r_lookup r id a)
+| IA_consume r : is_action v (r_consume r)
+| IA_check r : is_action v (r_check v r)
+| IA_complete r : is_action v (r_complete r)
+| IA_fire r : is_action v (f_fire v r)
+| IA_flush r : is_action v (f_flush r)
+| IA_clear : is_action v a_clear.
+
+Lemma w_tok_local0 id : w_tok id local0 = 0. Proof. reflexivity. Qed.
+Lemma w_cb_local0 : w_cb local0 = 0. Proof. reflexivity. Qed.
+
+Lemma tokens_set_local id s r x :
+  tokens id (set_local s r x) + w_tok id (get_local s r) <= tokens id s + w_tok id x.
+Proof. unfold tokens, set_local, get_local; simpl. apply sumf_upd. apply w_tok_local0. Qed.
+
+Lemma cbtokens_set_local s r x :
+  cbtokens (set_local s r x) + w_cb (get_local s r) <= cbtokens s + w_cb x.
+Proof. unfold cbtokens, set_local, get_local; simpl. apply sumf_upd. apply w_cb_local0. Qed.
+
+(* the sends a consumer makes from inside keep the accounting *)
+Lemma send_now_acc k d s evs :
+  acc_cons s evs -> acc_cons (fst (send_now k d s)) (evs ++ snd (send_now k d s)).
+Proof.
+  intros H id. specialize (H id). unfold send_now, register_core. cbn -[mset mfind Z.add].
+  rewrite !sumf_app.
+  set (nid := (seqc s + 1)%Z).
+  assert (Hev : sumf (w_cons id) (EReg nid k :: (if fired s then [EMsg nid d] else [])) = 0)
+    by (destruct (fired s); reflexivity).
+  assert (Hreg : sumf (w_reg id) (EReg nid k :: (if fired s then [EMsg nid d] else []))
+                 = if Z.eqb id nid then 1 else 0)
+    by (destruct (fired s); simpl; lia).
+  rewrite Hev, Hreg. unfold inmap in *. cbn -[mset mfind Z.add].
+  change (tokens id {| seqc := nid; outstanding := mset nid k (outstanding s);
+                       queue := if fired s then queue s else queue s ++ [(nid, d)];
+                       fired := fired s; on_all := on_all s; proto_ok := proto_ok s;
+                       locals := locals s |}) with (tokens id s).
+  unfold tokens, sumf in *.
+  destruct (Z.eqb_spec id nid) as [->|Hn].
+  - rewrite mfind_mset_same. destruct (mfind nid (outstanding s)); lia.
+  - rewrite mfind_mset_other by congruence. lia.
+Qed.
+
+Lemma send_more_acc n tag s evs :
+  acc_cons s evs -> acc_cons (fst (send_more n tag s)) (evs ++ snd (send_more n tag s)).
+Proof.
+  revert tag s evs. induction n as [|n IH]; intros tag s evs H.
+  - simpl. now rewrite app_nil_r.
+  - cbn [send_more].
+    pose proof (send_now_acc (CPlain (tag + 1)) [N.succ tag] s evs H) as H1.
+    destruct (send_now (CPlain (tag + 1)) [N.succ tag] s) as [s1 e1]. cbn [fst snd] in H1.
+    specialize (IH (tag + 1)%N s1 (evs ++ e1) H1).
+    destruct (send_more n (tag + 1) s1) as [s2 e2]. cbn [fst snd] in *.
+    now rewrite app_assoc.
+Qed.
+
+(* locals are untouched by sends from inside a consumer *)
+Lemma send_now_locals k d s : locals (fst (send_now k d s)) = locals s.
+Proof. reflexivity. Qed.
+Lemma send_more_locals n tag s : locals (fst (send_more n tag s)) = locals s.
+Proof.
+  revert tag s. induction n as [|n IH]; intros tag s; [reflexivity|].
+  cbn [send_more].
+  pose proof (send_now_locals (CPlain (tag + 1)) [N.succ tag] s) as E1.
+  destruct (send_now (CPlain (tag + 1)) [N.succ tag] s) as [s1 e1]. cbn [fst] in E1.
+  specialize (IH (tag + 1)%N s1). destruct (send_more n (tag + 1) s1) as [s2 e2]. cbn [fst] in *.
+  congruence.
+Qed.
+
+Lemma sumf_msgs (w : event -> nat) (ms : list (Z * body)) :
+  (forall i d, w (EMsg i d) = 0) -> sumf w (map (fun m => EMsg (fst m) (snd m)) ms) = 0.
+Proof. intros H. induction ms as [|m ms IH]; simpl; auto. now rewrite H, IH. Qed.
+
+Lemma step_acc_cons v a s evs :
+  is_action v a -> acc_cons s evs -> acc_cons (fst (a s)) (evs ++ snd (a s)).
+Proof.
+  intros Ha Hacc. destruct Ha.
+  - (* alloc *)
+    intros id. specialize (Hacc id). unfold s_alloc. cbn -[mset mfind mremove Z.add tokens inmap]. rewrite !sumf_app. cbn -[mset mfind mremove Z.add tokens inmap].
+    set (l := get_local s r).
+    pose proof (tokens_set_local id
+      (mkSt (seqc s + 1) (outstanding s) (queue s) (fired s) (on_all s) (proto_ok s) (locals s)) r
+      (mkLocal (seqc s + 1) (l_fired l) (l_tok l) (l_hit l) (l_done l) (l_cb l) (l_msgs l))) as H1.
+    change (get_local (mkSt (seqc s + 1) (outstanding s) (queue s) (fired s) (on_all s) (proto_ok s)
+                            (locals s)) r) with l in H1.
+    change (tokens id (mkSt (seqc s + 1) (outstanding s) (queue s) (fired s) (on_all s) (proto_ok s)
+                            (locals s))) with (tokens id s) in H1.
+    assert (E : w_tok id (mkLocal (seqc s + 1) (l_fired l) (l_tok l) (l_hit l) (l_done l) (l_cb l) (l_msgs l))
+                = w_tok id l) by reflexivity.
+    rewrite E in H1. unfold inmap in *. cbn -[mset mfind mremove Z.add tokens]. lia.
+  - (* register *)
+    intros id. specialize (Hacc id). unfold s_register, register_core. cbn -[mset mfind mremove Z.add tokens inmap]. rewrite !sumf_app. cbn -[mset mfind mremove Z.add tokens inmap].
+    set (l := get_local s r).
+    set (s1 := mkSt (seqc s) (mset (l_id l) k (outstanding s))
+                    (if fired s then queue s else queue s ++ [(l_id l, d)])
+                    (fired s) (on_all s) (proto_ok s) (locals s)).
+    pose proof (tokens_set_local id s1 r
+      (mkLocal (l_id l) (fired s) (l_tok l) (l_hit l) (l_done l) (l_cb l) (l_msgs l))) as H1.
+    change (get_local s1 r) with l in H1.
+    change (tokens id s1) with (tokens id s) in H1.
+    assert (E : w_tok id (mkLocal (l_id l) (fired s) (l_tok l) (l_hit l) (l_done l) (l_cb l) (l_msgs l))
+                = w_tok id l) by reflexivity.
+    rewrite E in H1. unfold inmap in *. cbn -[mset mfind mremove Z.add tokens].
+    destruct (Z.eqb_spec id (l_id l)) as [->|Hn].
+    + rewrite mfind_mset_same. destruct (mfind (l_id l) (outstanding s)); lia.
+    + rewrite mfind_mset_other by congruence. lia.
+  - (* write *)
+    intros id. specialize (Hacc id). unfold s_write. cbn -[mset mfind mremove Z.add tokens inmap]. rewrite !sumf_app.
+    destruct (l_fired (get_local s r)); cbn -[mset mfind mremove Z.add tokens inmap]; lia.
+  - (* lookup *)
+    intros id0. specialize (Hacc id0). unfold r_lookup.
+    set (l := get_local s r).
+    destruct (mfind id (outstanding s)) as [k|] eqn:Hf; cbn -[mset mfind mremove Z.add tokens inmap]; rewrite !sumf_app; cbn -[mset mfind mremove Z.add tokens inmap].
+    + set (s1 := mkSt (seqc s) (mremove id (outstanding s)) (queue s) (fired s) (on_all s) (proto_ok s) (locals s)).
+      pose proof (tokens_set_local id0 s1 r
+        (mkLocal (l_id l) (l_fired l) (Some (id, k, a)) true false false (l_msgs l))) as H1.
+      change (get_local s1 r) with l in H1. change (tokens id0 s1) with (tokens id0 s) in H1.
+      unfold w_tok at 2 in H1. simpl in H1. unfold inmap in *. cbn -[mset mfind mremove Z.add tokens].
+      destruct (Z.eqb_spec id0 id) as [->|Hn].
+      * rewrite mfind_mremove_same. rewrite Hf in Hacc. lia.
+      * rewrite mfind_mremove_other by congruence. lia.
+    + pose proof (tokens_set_local id0 s r
+        (mkLocal (l_id l) (l_fired l) None false false false (l_msgs l))) as H1.
+      fold l in H1. unfold w_tok at 2 in H1. simpl in H1. unfold inmap in *. cbn -[mset mfind mremove Z.add tokens]. lia.
+  - (* consume *)
+    unfold r_consume. set (l := get_local s r).
+    destruct (l_tok l) as [[[id k] a]|] eqn:Ht; [|simpl; now rewrite app_nil_r].
+    set (s0 := set_local s r (mkLocal (l_id l) (l_fired l) None (l_hit l) (l_done l) (l_cb l) (l_msgs l))).
+    (* the token becomes the invocation *)
+    assert (H0 : acc_cons s0 (evs ++ [ECons id k a])).
+    { intros id0. specialize (Hacc id0). rewrite sumf_app. cbn -[mset mfind mremove Z.add tokens inmap].
+      pose proof (tokens_set_local id0 s r
+        (mkLocal (l_id l) (l_fired l) None (l_hit l) (l_done l) (l_cb l) (l_msgs l))) as H1.
+      fold l in H1. unfold w_tok at 2 in H1. simpl in H1.
+      assert (E : w_tok id0 l = if Z.eqb id0 id then 1 else 0) by (unfold w_tok; now rewrite Ht).
+      rewrite E in H1. rewrite sumf_app. cbn -[mset mfind mremove Z.add tokens inmap].
+      change (inmap id0 s0) with (inmap id0 s). fold s0 in H1. lia. }
+    destruct k as [tag|tag n|bid]; cbn -[mset mfind mremove Z.add tokens inmap].
+    + exact H0.
+    + pose proof (send_more_acc n tag s0 _ H0) as H2.
+      destruct (send_more n tag s0) as [s1 e1]. cbn [fst snd] in *.
+      now rewrite <- app_assoc in H2.
+    + intros id0. specialize (H0 id0). rewrite !sumf_app in *. cbn -[tokens inmap] in *. lia.
+  - (* check *)
+    intros id. specialize (Hacc id). unfold r_check. set (l := get_local s r).
+    destruct (l_hit l); cbn -[mset mfind mremove Z.add tokens inmap]; rewrite !sumf_app; cbn -[mset mfind mremove Z.add tokens inmap]; [|lia].
+    set (on' := match v with Impl => on_all s
+                | Spec => if match outstanding s with [] => true | _ => false end then false else on_all s end).
+    set (s1 := mkSt (seqc s) (outstanding s) (queue s) (fired s) on' (proto_ok s) (locals s)).
+    set (x := mkLocal (l_id l) (l_fired l) (l_tok l) true
+                      match outstanding s with [] => true | _ => false end
+                      (match outstanding s with [] => true | _ => false end && on_all s) (l_msgs l)).
+    pose proof (tokens_set_local id s1 r x) as H1.
+    change (get_local s1 r) with l in H1. change (tokens id s1) with (tokens id s) in H1.
+    assert (E : w_tok id x = w_tok id l) by reflexivity. rewrite E in H1.
+    change (inmap id (set_local s1 r x)) with (inmap id s). lia.
+  - (* complete *)
+    intros id. specialize (Hacc id). unfold r_complete. set (l := get_local s r).
+    destruct (l_hit l && l_done l && l_cb l); cbn -[mset mfind mremove Z.add tokens inmap]; rewrite !sumf_app; cbn -[mset mfind mremove Z.add tokens inmap]; [|lia].
+    set (x := mkLocal (l_id l) (l_fired l) (l_tok l) false false false (l_msgs l)).
+    pose proof (tokens_set_local id s r x) as H1. fold l in H1.
+    assert (E : w_tok id x = w_tok id l) by reflexivity. rewrite E in H1.
+    change (inmap id (set_local s r x)) with (inmap id s). lia.
+  - (* fire *)
+    intros id. specialize (Hacc id). unfold f_fire. set (l := get_local s r).
+    cbn -[mset mfind mremove Z.add tokens inmap]. rewrite !sumf_app. cbn -[mset mfind mremove Z.add tokens inmap].
+    set (on' := match v with Impl => true | Spec => negb match queue s with [] => true | _ => false end end).
+    set (s1 := mkSt (seqc s) (outstanding s) [] true on' (proto_ok s) (locals s)).
+    set (x := mkLocal (l_id l) (l_fired l) (l_tok l) false false
+                      match queue s with [] => true | _ => false end (queue s)).
+    pose proof (tokens_set_local id s1 r x) as H1.
+    change (get_local s1 r) with l in H1. change (tokens id s1) with (tokens id s) in H1.
+    assert (E : w_tok id x = w_tok id l) by reflexivity. rewrite E in H1.
+    change (inmap id (set_local s1 r x)) with (inmap id s). lia.
+  - (* flush *)
+    intros id. specialize (Hacc id). unfold f_flush. set (l := get_local s r).
+    set (x := mkLocal (l_id l) (l_fired l) (l_tok l) (l_hit l) (l_done l) false []).
+    pose proof (tokens_set_local id s r x) as H1. fold l in H1.
+    assert (E : w_tok id x = w_tok id l) by reflexivity. rewrite E in H1.
+    assert (Hm : forall ms, sumf (w_cons id) (map (fun m => EMsg (fst m) (snd m)) ms ++ [EFlush]) = 0
+                         /\ sumf (w_reg id) (map (fun m => EMsg (fst m) (snd m)) ms ++ [EFlush]) = 0).
+    { intros ms. rewrite !sumf_app, !sumf_msgs by reflexivity. split; reflexivity. }
+    destruct (l_msgs l) as [|m ms] eqn:Em.
+    + destruct (l_cb l); cbn -[mset mfind mremove Z.add tokens inmap]; rewrite !sumf_app; cbn -[mset mfind mremove Z.add tokens inmap]; [|lia].
+      change (inmap id (set_local s r x)) with (inmap id s). lia.
+    + destruct (Hm (m :: ms)) as [Hc Hr]. cbn [fst snd].
+      rewrite (sumf_app (w_cons id) evs), (sumf_app (w_reg id) evs), Hc, Hr.
+      change (inmap id (set_local s r x)) with (inmap id s). lia.
+  - (* clear *)
+    intros id. specialize (Hacc id). unfold a_clear. cbn -[mset mfind mremove Z.add tokens inmap]. rewrite !sumf_app. cbn -[mset mfind mremove Z.add tokens inmap].
+    change (tokens id (mkSt (seqc s) (outstanding s) (queue s) (fired s) false (proto_ok s) (locals s)))
+      with (tokens id s).
+    change (inmap id (mkSt (seqc s) (outstanding s) (queue s) (fired s) false (proto_ok s) (locals s)))
+      with (inmap id s). lia.
+Qed.
+
+(* ---------- the completion callback runs at most once per fire (Spec) ---------- *)
+
+Lemma send_more_on_all n tag s : on_all (fst (send_more n tag s)) = on_all s.
+Proof.
+  revert tag s. induction n as [|n IH]; intros tag s; [reflexivity|].
+  cbn [send_more].
+  assert (E1 : on_all (fst (send_now (CPlain (tag + 1)) [N.succ tag] s)) = on_all s) by reflexivity.
+  destruct (send_now (CPlain (tag + 1)) [N.succ tag] s) as [s1 e1]. cbn [fst] in E1.
+  specialize (IH (tag + 1)%N s1). destruct (send_more n (tag + 1) s1) as [s2 e2]. cbn [fst] in *.
+  congruence.
+Qed.
+
+Lemma send_more_no_compl n tag s :
+  sumf w_compl (snd (send_more n tag s)) = 0 /\ sumf w_fire (snd (send_more n tag s)) = 0.
+Proof.
+  revert tag s. induction n as [|n IH]; intros tag s; [split; reflexivity|].
+  cbn [send_more].
+  assert (E1 : sumf w_compl (snd (send_now (CPlain (tag + 1)) [N.succ tag] s)) = 0
+               /\ sumf w_fire (snd (send_now (CPlain (tag + 1)) [N.succ tag] s)) = 0).
+  { unfold send_now, register_core. cbn -[mset Z.add]. destruct (fired s); split; reflexivity. }
+  destruct (send_now (CPlain (tag + 1)) [N.succ tag] s) as [s1 e1]. cbn [snd] in E1.
+  specialize (IH (tag + 1)%N s1). destruct (send_more n (tag + 1) s1) as [s2 e2]. cbn [snd] in *.
+  rewrite !sumf_app. lia.
+Qed.
+
+Lemma step_acc_compl a s evs :
+  is_action Spec a -> acc_compl s evs -> acc_compl (fst (a s)) (evs ++ snd (a s)).
+Proof.
+  unfold acc_compl. intros Ha Hacc. rewrite !sumf_app. destruct Ha.
+  - (* alloc *)
+    unfold s_alloc. cbn -[Z.add cbtokens onall1]. set (l := get_local s r).
+    set (s1 := mkSt (seqc s + 1) (outstanding s) (queue s) (fired s) (on_all s) (proto_ok s) (locals s)).
+    set (x := mkLocal (seqc s + 1) (l_fired l) (l_tok l) (l_hit l) (l_done l) (l_cb l) (l_msgs l)).
+    pose proof (cbtokens_set_local s1 r x) as H1.
+    change (get_local s1 r) with l in H1. change (cbtokens s1) with (cbtokens s) in H1.
+    change (w_cb x) with (w_cb l) in H1. change (onall1 (set_local s1 r x)) with (onall1 s). lia.
+  - (* register *)
+    unfold s_register, register_core. cbn -[mset cbtokens onall1]. set (l := get_local s r).
+    set (s1 := mkSt (seqc s) (mset (l_id l) k (outstanding s))
+                    (if fired s then queue s else queue s ++ [(l_id l, d)])
+                    (fired s) (on_all s) (proto_ok s) (locals s)).
+    set (x := mkLocal (l_id l) (fired s) (l_tok l) (l_hit l) (l_done l) (l_cb l) (l_msgs l)).
+    pose proof (cbtokens_set_local s1 r x) as H1.
+    change (get_local s1 r) with l in H1. change (cbtokens s1) with (cbtokens s) in H1.
+    change (w_cb x) with (w_cb l) in H1. change (onall1 (set_local s1 r x)) with (onall1 s). lia.
+  - (* write *)
+    unfold s_write. cbn -[cbtokens onall1]. destruct (l_fired (get_local s r)); simpl; lia.
+  - (* lookup *)
+    unfold r_lookup. set (l := get_local s r).
+    destruct (mfind id (outstanding s)) as [k|]; cbn -[mremove cbtokens onall1].
+    + set (s1 := mkSt (seqc s) (mremove id (outstanding s)) (queue s) (fired s) (on_all s) (proto_ok s) (locals s)).
+      set (x := mkLocal (l_id l) (l_fired l) (Some (id, k, a)) true false false (l_msgs l)).
+      pose proof (cbtokens_set_local s1 r x) as H1.
+      change (get_local s1 r) with l in H1. change (cbtokens s1) with (cbtokens s) in H1.
+      change (w_cb x) with 0 in H1. change (onall1 (set_local s1 r x)) with (onall1 s). lia.
+    + set (x := mkLocal (l_id l) (l_fired l) None false false false (l_msgs l)).
+      pose proof (cbtokens_set_local s r x) as H1. fold l in H1.
+      change (w_cb x) with 0 in H1. change (onall1 (set_local s r x)) with (onall1 s). lia.
+  - (* consume *)
+    unfold r_consume. set (l := get_local s r).
+    destruct (l_tok l) as [[[id k] a]|]; [|simpl; lia].
+    set (x := mkLocal (l_id l) (l_fired l) None (l_hit l) (l_done l) (l_cb l) (l_msgs l)).
+    set (s0 := set_local s r x).
+    pose proof (cbtokens_set_local s r x) as H1. fold l in H1. change (w_cb x) with (w_cb l) in H1.
+    fold s0 in H1.
+    destruct k as [tag|tag n|bid]; cbn -[cbtokens onall1 send_more].
+    + change (onall1 s0) with (onall1 s). lia.
+    + pose proof (send_more_locals n tag s0) as HL. pose proof (send_more_on_all n tag s0) as HO.
+      destruct (send_more_no_compl n tag s0) as [HC HF].
+      destruct (send_more n tag s0) as [s1 e1]. cbn [fst snd] in *.
+      assert (Ecb : cbtokens s1 = cbtokens s0) by (unfold cbtokens; now rewrite HL).
+      assert (Eon : onall1 s1 = onall1 s) by (unfold onall1; now rewrite HO).
+      rewrite Ecb, Eon.
+      change (sumf w_compl (ECons id (CSendMore tag n) a :: e1)) with (sumf w_compl e1).
+      change (sumf w_fire (ECons id (CSendMore tag n) a :: e1)) with (sumf w_fire e1). lia.
+    + change (onall1 s0) with (onall1 s). lia.
+  - (* check: the callback moves from the struct to the call that will run it *)
+    unfold r_check. set (l := get_local s r).
+    destruct (l_hit l); cbn -[cbtokens onall1]; [|lia].
+    set (done := match outstanding s with [] => true | _ => false end).
+    set (s1 := mkSt (seqc s) (outstanding s) (queue s) (fired s) (if done then false else on_all s)
+                    (proto_ok s) (locals s)).
+    set (x := mkLocal (l_id l) (l_fired l) (l_tok l) true done (done && on_all s) (l_msgs l)).
+    pose proof (cbtokens_set_local s1 r x) as H1.
+    change (get_local s1 r) with l in H1. change (cbtokens s1) with (cbtokens s) in H1.
+    assert (E : w_cb x + onall1 (set_local s1 r x) = onall1 s).
+    { unfold w_cb, onall1. simpl. destruct done, (on_all s); reflexivity. }
+    lia.
+  - (* complete *)
+    unfold r_complete. set (l := get_local s r).
+    destruct (l_hit l && l_done l && l_cb l) eqn:Ec; cbn -[cbtokens onall1]; [|lia].
+    apply andb_true_iff in Ec. destruct Ec as [_ Ecb].
+    set (x := mkLocal (l_id l) (l_fired l) (l_tok l) false false false (l_msgs l)).
+    pose proof (cbtokens_set_local s r x) as H1. fold l in H1.
+    change (w_cb x) with 0 in H1. unfold w_cb in H1. rewrite Ecb in H1.
+    change (onall1 (set_local s r x)) with (onall1 s). lia.
+  - (* fire *)
+    unfold f_fire. set (l := get_local s r). cbn -[cbtokens onall1].
+    set (empty := match queue s with [] => true | _ => false end).
+    set (s1 := mkSt (seqc s) (outstanding s) [] true (negb empty) (proto_ok s) (locals s)).
+    set (x := mkLocal (l_id l) (l_fired l) (l_tok l) false false empty (queue s)).
+    pose proof (cbtokens_set_local s1 r x) as H1.
+    change (get_local s1 r) with l in H1. change (cbtokens s1) with (cbtokens s) in H1.
+    assert (E : w_cb x + onall1 (set_local s1 r x) = 1).
+    { unfold w_cb, onall1. simpl. destruct empty; reflexivity. }
+    lia.
+  - (* flush *)
+    unfold f_flush. set (l := get_local s r).
+    set (x := mkLocal (l_id l) (l_fired l) (l_tok l) (l_hit l) (l_done l) false []).
+    pose proof (cbtokens_set_local s r x) as H1. fold l in H1. change (w_cb x) with 0 in H1.
+    destruct (l_msgs l) as [|m ms].
+    + destruct (l_cb l) eqn:Ecb; cbn -[cbtokens onall1]; [|lia].
+      unfold w_cb in H1. rewrite Ecb in H1. change (onall1 (set_local s r x)) with (onall1 s). lia.
+    + cbn [fst snd]. rewrite !sumf_app, !sumf_msgs by reflexivity.
+      change (onall1 (set_local s r x)) with (onall1 s). simpl. lia.
+  - (* clear *)
+    unfold a_clear. cbn -[cbtokens onall1].
+    change (cbtokens (mkSt (seqc s) (outstanding s) (queue s) (fired s) false (proto_ok s) (locals s)))
+      with (cbtokens s).
+    unfold onall1 at 1. simpl. lia.
+Qed.
+
+(* ---------- id correlation: who is invoked, and with what ---------- *)
+
+Definition tokJ (t : option (Z * consumer * arg)) (evs : list event) : Prop :=
+  match t with
+  | None => True
+  | Some (id, k, a) => In (EReg id k) evs /\ In (EResp id a) evs
+  end.
+
+Definition justified (s : state) (evs : list event) : Prop :=
+  (forall id k, mfind id (outstanding s) = Some k -> In (EReg id k) evs)
+  /\ (forall l, In l (locals s) -> tokJ (l_tok l) evs)
+  /\ (forall id k a, In (ECons id k a) evs -> In (EReg id k) evs /\ In (EResp id a) evs)
+  /\ (forall id bid a, In (EBackend id bid a) evs -> In (EReg id (CRelay bid)) evs /\ In (EResp id a) evs).
+
+Lemma tokJ_mono t evs ev : tokJ t evs -> tokJ t (evs ++ ev).
+Proof. destruct t as [[[id k] a]|]; simpl; auto. intros [H1 H2]. split; apply in_or_app; auto. Qed.
+
+Lemma mfind_mremove_incl id id' m k : mfind id' (mremove id m) = Some k -> mfind id' m = Some k.
+Proof.
+  destruct (Z.eq_dec id id') as [->|Hn].
+  - now rewrite mfind_mremove_same.
+  - now rewrite mfind_mremove_other.
+Qed.
+
+Lemma get_local_tokJ s r evs :
+  (forall l, In l (locals s) -> tokJ (l_tok l) evs) -> tokJ (l_tok (get_local s r)) evs.
+Proof.
+  intros H. unfold get_local. destruct (nth_in_or_default r (locals s) local0) as [Hin|E].
+  - now apply H.
+  - rewrite E. exact I.
+Qed.
+
+Lemma locals_set_local_tokJ s r x evs :
+  (forall l, In l (locals s) -> tokJ (l_tok l) evs) -> tokJ (l_tok x) evs ->
+  forall l, In l (locals (set_local s r x)) -> tokJ (l_tok l) evs.
+Proof.
+  intros H Hx l Hin. unfold set_local in Hin; simpl in Hin.
+  apply in_upd in Hin. destruct Hin as [->|Hin]; auto.
+Qed.
+
+(* the four clauses after appending events that contain no ECons/EBackend *)
+Lemma justified_weaken s s' evs ev :
+  justified s evs ->
+  (forall id k, mfind id (outstanding s') = Some k -> In (EReg id k) (evs ++ ev)) ->
+  (forall l, In l (locals s') -> tokJ (l_tok l) (evs ++ ev)) ->
+  (forall id k a, In (ECons id k a) ev -> In (EReg id k) (evs ++ ev) /\ In (EResp id a) (evs ++ ev)) ->
+  (forall id bid a, In (EBackend id bid a) ev ->
+     In (EReg id (CRelay bid)) (evs ++ ev) /\ In (EResp id a) (evs ++ ev)) ->
+  justified s' (evs ++ ev).
+Proof.
+  intros (J1 & J2 & J3 & J4) H1 H2 H3 H4. split; [exact H1|]. split; [exact H2|]. split.
+  - intros id k a Hin. apply in_app_or in Hin. destruct Hin as [Hin|Hin]; [|auto].
+    destruct (J3 _ _ _ Hin). split; apply in_or_app; auto.
+  - intros id bid a Hin. apply in_app_or in Hin. destruct Hin as [Hin|Hin]; [|auto].
+    destruct (J4 _ _ _ Hin). split; apply in_or_app; auto.
+Qed.
+
+Lemma send_now_map k d s evs :
+  (forall id k', mfind id (outstanding s) = Some k' -> In (EReg id k') evs) ->
+  forall id k', mfind id (outstanding (fst (send_now k d s))) = Some k' ->
+                In (EReg id k') (evs ++ snd (send_now k d s)).
+Proof.
+  intros H id k' Hf. unfold send_now, register_core in *. cbn -[mset mfind Z.add] in *.
+  destruct (Z.eq_dec (seqc s + 1) id) as [<-|Hn].
+  - rewrite mfind_mset_same in Hf. inversion Hf; subst. apply in_or_app. right. now left.
+  - rewrite mfind_mset_other in Hf by auto. apply in_or_app. left. auto.
+Qed.
+
+Lemma send_more_map n tag s evs :
+  (forall id k', mfind id (outstanding s) = Some k' -> In (EReg id k') evs) ->
+  forall id k', mfind id (outstanding (fst (send_more n tag s))) = Some k' ->
+                In (EReg id k') (evs ++ snd (send_more n tag s)).
+Proof.
+  revert tag s evs. induction n as [|n IH]; intros tag s evs H.
+  - simpl. intros id k' Hf. rewrite app_nil_r. auto.
+  - cbn [send_more].
+    pose proof (send_now_map (CPlain (tag + 1)) [N.succ tag] s evs H) as H1.
+    destruct (send_now (CPlain (tag + 1)) [N.succ tag] s) as [s1 e1]. cbn [fst snd] in H1.
+    specialize (IH (tag + 1)%N s1 (evs ++ e1) H1).
+    destruct (send_more n (tag + 1) s1) as [s2 e2]. cbn [fst snd] in *.
+    intros id k' Hf. rewrite app_assoc. auto.
+Qed.
+
+Lemma send_more_no_inv n tag s e :
+  In e (snd (send_more n tag s)) ->
+  match e with ECons _ _ _ | EBackend _ _ _ => False | _ => True end.
+Proof.
+  revert tag s. induction n as [|n IH]; intros tag s; [intros []|].
+  cbn [send_more].
+  assert (E1 : forall e, In e (snd (send_now (CPlain (tag + 1)) [N.succ tag] s)) ->
+               match e with ECons _ _ _ | EBackend _ _ _ => False | _ => True end).
+  { unfold send_now, register_core. cbn -[mset Z.add]. intros e0 [<-|Hin]; [exact I|].
+    destruct (fired s); [destruct Hin as [<-|[]]; exact I|destruct Hin]. }
+  destruct (send_now (CPlain (tag + 1)) [N.succ tag] s) as [s1 e1]. cbn [snd] in E1.
+  specialize (IH (tag + 1)%N s1). destruct (send_more n (tag + 1) s1) as [s2 e2]. cbn [snd] in *.
+  intros Hin. apply in_app_or in Hin. destruct Hin as [Hin|Hin]; [exact (E1 _ Hin)|exact (IH Hin)].
+Qed.
+
+Lemma step_justified v a s evs :
+  is_action v a -> justified s evs -> justified (fst (a s)) (evs ++ snd (a s)).
+Proof.
+  intros Ha J. pose proof J as (J1 & J2 & J3 & J4).
+  assert (Jmap : forall ev id k, mfind id (outstanding s) = Some k -> In (EReg id k) (evs ++ ev))
+    by (intros; apply in_or_app; left; auto).
+  assert (Jloc : forall ev l, In l (locals s) -> tokJ (l_tok l) (evs ++ ev))
+    by (intros; apply tokJ_mono; auto).
+  assert (Jget : forall ev r, tokJ (l_tok (get_local s r)) (evs ++ ev))
+    by (intros; apply tokJ_mono, get_local_tokJ; auto).
+  destruct Ha.
+  - (* alloc *)
+    unfold s_alloc. cbn -[Z.add]. apply (justified_weaken s _ evs _ J).
+    + intros id k. apply Jmap.
+    + apply locals_set_local_tokJ; [apply Jloc|apply Jget].
+    + intros ? ? ? [].
+    + intros ? ? ? [].
+  - (* register *)
+    unfold s_register, register_core. cbn -[mset mfind]. set (l := get_local s r).
+    apply (justified_weaken s _ evs _ J).
+    + intros id k0 Hf. destruct (Z.eq_dec (l_id l) id) as [<-|Hn].
+      * rewrite mfind_mset_same in Hf. inversion Hf; subst. apply in_or_app. right. now left.
+      * rewrite mfind_mset_other in Hf by auto. now apply Jmap.
+    + apply locals_set_local_tokJ; [apply Jloc|apply Jget].
+    + intros ? ? ? [E|[]]. discriminate.
+    + intros ? ? ? [E|[]]. discriminate.
+  - (* write *)
+    unfold s_write. cbn. apply (justified_weaken s _ evs _ J).
+    + intros id k. apply Jmap.
+    + intros l. apply Jloc.
+    + destruct (l_fired (get_local s r)); intros ? ? ? Hin; [destruct Hin as [E|[]]; discriminate|destruct Hin].
+    + destruct (l_fired (get_local s r)); intros ? ? ? Hin; [destruct Hin as [E|[]]; discriminate|destruct Hin].
+  - (* lookup *)
+    unfold r_lookup. set (l := get_local s r).
+    destruct (mfind id (outstanding s)) as [k|] eqn:Hf; cbn -[mremove mfind].
+    + apply (justified_weaken s _ evs _ J).
+      * intros id0 k0 Hf0. apply mfind_mremove_incl in Hf0. now apply Jmap.
+      * apply locals_set_local_tokJ; [apply Jloc|]. simpl. split.
+        -- now apply Jmap.
+        -- apply in_or_app. right. now left.
+      * intros ? ? ? [E|[]]. discriminate.
+      * intros ? ? ? [E|[]]. discriminate.
+    + apply (justified_weaken s _ evs _ J).
+      * intros id0 k0. apply Jmap.
+      * apply locals_set_local_tokJ; [apply Jloc|exact I].
+      * intros ? ? ? [E|[]]. discriminate.
+      * intros ? ? ? [E|[]]. discriminate.
+  - (* consume *)
+    unfold r_consume. set (l := get_local s r).
+    destruct (l_tok l) as [[[id k] a]|] eqn:Ht.
+    2:{ simpl. rewrite app_nil_r. exact J. }
+    pose proof (get_local_tokJ s r evs J2) as Htok. fold l in Htok. rewrite Ht in Htok.
+    simpl in Htok. destruct Htok as [HR HP].
+    set (x := mkLocal (l_id l) (l_fired l) None (l_hit l) (l_done l) (l_cb l) (l_msgs l)).
+    set (s0 := set_local s r x).
+    destruct k as [tag|tag n|bid]; cbn -[send_more].
+    + apply (justified_weaken s _ evs _ J).
+      * intros id0 k0. apply Jmap.
+      * apply locals_set_local_tokJ; [apply Jloc|exact I].
+      * intros ? ? ? [E|[]]. inversion E; subst. split; apply in_or_app; auto.
+      * intros ? ? ? [E|[]]. discriminate.
+    + pose proof (send_more_map n tag s0 evs) as HM. pose proof (send_more_locals n tag s0) as HL.
+      pose proof (send_more_no_inv n tag s0) as HN.
+      destruct (send_more n tag s0) as [s1 e1]. cbn [fst snd] in *.
+      apply (justified_weaken s _ evs _ J).
+      * intros id0 k0 Hf0. specialize (HM J1 id0 k0 Hf0).
+        apply in_app_or in HM. apply in_or_app. destruct HM; [left|right; right]; auto.
+      * rewrite HL. apply locals_set_local_tokJ; [apply Jloc|exact I].
+      * intros id0 k0 a0 [E|Hin].
+        -- inversion E; subst. split; apply in_or_app; auto.
+        -- apply HN in Hin. destruct Hin.
+      * intros id0 b0 a0 [E|Hin]; [discriminate|]. apply HN in Hin. destruct Hin.
+    + apply (justified_weaken s _ evs _ J).
+      * intros id0 k0. apply Jmap.
+      * apply locals_set_local_tokJ; [apply Jloc|exact I].
+      * intros ? ? ? [E|[E|[]]]; [|discriminate]. inversion E; subst. split; apply in_or_app; auto.
+      * intros ? ? ? [E|[E|[]]]; [discriminate|]. inversion E; subst. split; apply in_or_app; auto.
+  - (* check *)
+    unfold r_check. set (l := get_local s r).
+    destruct (l_hit l); cbn; [|rewrite app_nil_r; exact J].
+    apply (justified_weaken s _ evs _ J).
+    + intros id k. apply Jmap.
+    + apply locals_set_local_tokJ; [apply Jloc|apply Jget].
+    + intros ? ? ? [].
+    + intros ? ? ? [].
+  - (* complete *)
+    unfold r_complete. set (l := get_local s r).
+    destruct (l_hit l && l_done l && l_cb l); cbn; [|rewrite app_nil_r; exact J].
+    apply (justified_weaken s _ evs _ J).
+    + intros id k. apply Jmap.
+    + apply locals_set_local_tokJ; [apply Jloc|apply Jget].
+    + intros ? ? ? [E|[]]. discriminate.
+    + intros ? ? ? [E|[]]. discriminate.
+  - (* fire *)
+    unfold f_fire. cbn. apply (justified_weaken s _ evs _ J).
+    + intros id k. apply Jmap.
+    + apply locals_set_local_tokJ; [apply Jloc|apply Jget].
+    + intros ? ? ? [E|[]]. discriminate.
+    + intros ? ? ? [E|[]]. discriminate.
+  - (* flush *)
+    unfold f_flush. set (l := get_local s r).
+    assert (Hm : forall ms e, In e (map (fun m => EMsg (fst m) (snd m)) ms ++ [EFlush]) ->
+                 match e with ECons _ _ _ | EBackend _ _ _ => False | _ => True end).
+    { intros ms e Hin. apply in_app_or in Hin. destruct Hin as [Hin|[<-|[]]]; [|exact I].
+      apply in_map_iff in Hin. destruct Hin as [m [<- _]]. exact I. }
+    destruct (l_msgs l) as [|m ms].
+    + destruct (l_cb l); cbn; [|rewrite app_nil_r; exact J].
+      apply (justified_weaken s _ evs _ J).
+      * intros id k. apply Jmap.
+      * apply locals_set_local_tokJ; [apply Jloc|apply Jget].
+      * intros ? ? ? [E|[]]. discriminate.
+      * intros ? ? ? [E|[]]. discriminate.
+    + cbn [fst snd]. apply (justified_weaken s _ evs _ J).
+      * intros id k. apply Jmap.
+      * apply locals_set_local_tokJ; [apply Jloc|apply Jget].
+      * intros ? ? ? Hin. apply Hm in Hin. destruct Hin.
+      * intros ? ? ? Hin. apply Hm in Hin. destruct Hin.
+  - (* clear *)
+    unfold a_clear. cbn. rewrite app_nil_r.
+    destruct J as (K1 & K2 & K3 & K4). split; [exact K1|]. split; [exact K2|]. split; auto.
+Qed.
